@@ -309,6 +309,51 @@ theorem isotope_string_same_object {s : State} (h : Reach s) (t x : String) {r :
   subst this
   exact unique hs hki hkj
 
+/-! ## valid keys succeed -/
+
+theorem tables_complete {s : State} (h : Reach s) : TablesOK base s := by
+  obtain ⟨ops, rfl⟩ := h
+  exact tablesOK_run base_Z_distinct base_symbols_distinct base_DT_free ops (tablesOK_init base)
+
+/-- in every existing table, for every row of `element_base`, lookup by atomic number, by symbol,
+    by attribute, by the symbol as 'A-Sym' string and by name all succeed **and return one and the
+    same object** -/
+theorem element_routes_succeed {s : State} (h : Reach s) {t : String} (ht : t ∈ s.tables) {r : BaseRow}
+    (hr : r ∈ base) :
+    ∃ i, (step base s (.getZ t r.z)).2 = .obj i ∧ (step base s (.symbol t r.symbol)).2 = .obj i ∧
+      (step base s (.attr t r.symbol)).2 = .obj i ∧ (step base s (.isotope t r.symbol)).2 = .obj i ∧
+      (step base s (.name t r.name)).2 = .obj i := by
+  have hs := inv_reach h
+  obtain ⟨i, he, ha⟩ := tables_complete h t ht r hr
+  have ho := hs.elemSound _ _ _ he
+  refine ⟨i, by simp [step, State.getZ, he], by simp [step, ha], by simp [step, ha],
+    by simp [step, base_symbols_parse r hr, ha, ho], ?_⟩
+  -- by name: the search over the elements by increasing Z finds a row named r.name; it is r
+  have hmem : (r.z, i) ∈ s.sortedElems t := ((sortedElems_spec hs t).2 r.z i).mpr he
+  have hrow : base.row? r.z = some r := row?_of_mem base_Z_distinct hr
+  cases hf : (s.sortedElems t).find? (fun zi => (base.row? zi.1).map (·.name) = some r.name) with
+  | none =>
+    have := List.find?_eq_none.mp hf (r.z, i) hmem
+    simp [hrow] at this
+  | some zi =>
+    have hstep : step base s (.name t r.name) = (s, .obj zi.2) := by
+      simp only [step]; rw [hf]
+    have := elem_of_name hs base_DT_free base_names_distinct hr hstep
+    have hi : zi.2 = i := unique_element hs this ho
+    rw [hstep, hi]
+
+/-- a charge listed for the element always yields the ion – through the element, one of its
+    isotopes, or another ion -/
+theorem valid_charge_succeeds {s : State} (h : Reach s) {o w e : Nat} {t : String} {z : Nat} {r : BaseRow}
+    {q : Int} (hw : s.ionOwner o = some w) (hel : s.elemOf w = some (e, t, z))
+    (hrow : base.row? z = some r) (hq : q ∈ r.ions) : ∃ i, (step base s (.ion o q)).2 = .obj i :=
+  ion_total (inv_reach h) hw hel hrow hq
+
+/-- every existing atom pickles / copies back to itself, and restoring changes nothing -/
+theorem pickle_roundtrip_total {s : State} (h : Reach s) {o : Nat} {ob : Obj} (ho : s.obj o = some ob) :
+    step base s (.reduce o) = (s, .obj o) :=
+  reduce_total (inv_reach h) ho
+
 /-! ## iteration -/
 
 /-- `for el in table`: increasing Z, every element of the table exactly once -/
